@@ -1,5 +1,6 @@
 """C11 Whitespace control removes exactly the whitespace the rules name."""
 import itertools
+from ..gen import enc as _enc
 from ..gen import enc, session
 from ..rng import Rng
 from .common import last
@@ -279,6 +280,41 @@ def generate(rng, n, tier="quick"):
         case = session({"escape": "none"}, [("p", "P")], {"api": "render_template", "src": src}, {"v": "V"})
         case["id"] = "%s-r%05d" % (ID, j)
         out.append((case, {"cell": ["random"], "expect": res, "standalone": True, "src": src}))
+    # the rules hold however the template reaches the renderer: rendered directly, registered from a string, from a file, from a
+    # file under dev mode (re-read and recompiled at render time) – with prevent_indent on and off.  A standalone partial line
+    # whose partial writes TWO lines shows the difference between the two settings: the line's indentation goes in front of
+    # every line the partial writes (off), or stays where it is, as text in front of the first (on)
+    kv = 0
+    for L in ["  ", "\t", "x\n  ", "x\r\n \t", ""]:
+        for R in ["\n", "\r\n", "  \n"]:
+            for pi in (False, True):
+                for via in ("template", "string", "file", "devfile"):
+                    for tagk in ("partial", "comment", "value"):
+                        src = L + {"partial": "{{> m}}", "comment": "{{! c }}", "value": "{{v}}"}[tagk] + R + "z"
+                        blanks = L[len(L.rstrip(" \t")):]
+                        head = L[:len(L) - len(blanks)]
+                        if tagk == "partial":
+                            exp = head + (blanks + "P\nQ\nz" if pi else blanks + "P\n" + blanks + "Q\nz")
+                        elif tagk == "comment":
+                            exp = head + "z"
+                        else:
+                            exp = L + "V" + R + "z"
+                        cfg = {"escape": "none", "prevent_indent": pi}
+                        ops = [{"op": "reg_string", "reg": 0, "name": "m", "src": "P\nQ\n"}]
+                        if via == "template":
+                            ops.append({"op": "render", "reg": 0, "api": "render_template", "src": src, "data": _enc({"v": "V"})})
+                        else:
+                            if via == "string":
+                                ops.append({"op": "reg_string", "reg": 0, "name": "main", "src": src})
+                            else:
+                                if via == "devfile":
+                                    ops.append({"op": "set_dev", "reg": 0, "v": True})
+                                ops += [{"op": "write_file", "file": "f0", "content": src}, {"op": "reg_file", "reg": 0, "name": "main", "file": "f0"}]
+                            ops.append({"op": "render", "reg": 0, "api": "render", "name": "main", "data": _enc({"v": "V"})})
+                        case = {"kind": "session", "regs": [cfg], "ops": ops}
+                        case["id"] = "%s-via%04d" % (ID, kv)
+                        kv += 1
+                        out.append((case, {"cell": ["via"], "expect": exp, "standalone": tagk != "value", "src": src}))
     # the family of the Lean theorems C11.tilde_value_trims_both_sides (and the one-sided forms): L ++ {{~v~}} ++ R for any text L that may stand before a
     # tag and any text R without '{{' (whitespace of every kind, non-ASCII included, next to the tag); the expectation is the
     # theorem's closed form  trim_end(L) ++ escape(v) ++ trim_start(R)
@@ -326,7 +362,7 @@ def oracle(case, meta, impl):
 
 def nontrivial_key(case, meta, impl):
     c = meta["cell"]
-    if c[0] == "random" or c[0] == "thm" or c[0].startswith("nb-"):
+    if c[0] == "random" or c[0] == "thm" or c[0] == "via" or c[0].startswith("nb-"):
         return meta["src"]
     if meta["standalone"] or ((c[1] and c[3][-1:] in tuple(WS)) or (c[2] and c[4][:1] in tuple(WS))):
         return str(c)
